@@ -18,7 +18,7 @@ from . import common, lexlib
 from .c14 import rejected_of
 from .common import log
 
-RUNS = {"quick": 200, "thorough": 5000}
+RUNS = {"quick": 760, "thorough": 8000}
 WINDOW_BYTES = {"quick": 1000, "thorough": 600}
 
 RULE_TEXT = (
